@@ -38,6 +38,36 @@ def chainCfg : Cfg :=
     supers := fun t => if t == 3 then [0] else []
     groups := [[⟨0, 0, 2, 0⟩, ⟨1, 0, 1, 0⟩], [⟨2, 1, 2, 1⟩], [⟨3, 2, 0, 2⟩]] }
 
+/-- 0 = Base, 1 = Sub(Base), 2 = T; the Base offer is registered before the Sub offer. -/
+def distCfg : Cfg :=
+  { provides := providesOf [(1, 0)]
+    supers := fun t => if t == 1 then [0] else []
+    groups := [[⟨0, 0, 2, 0⟩], [⟨1, 1, 2, 1⟩]] }
+
+/-- Two unrelated one-step offers 0→1. -/
+def twoCfg : Cfg :=
+  { provides := providesOf []
+    supers := fun _ => []
+    groups := [[⟨0, 0, 1, 0⟩, ⟨1, 0, 1, 0⟩]] }
+
+/-- A factory whose answer depends on *when* it is called: only the very first
+factory call of the `adapt` call is accepted, and only for offer 1. -/
+def firstCallOnly : Factory Unit := fun k o a => if k == 0 && o.id == 1 then .adapter a else .none
+
+theorem distCfg_homogeneous : Homogeneous distCfg := by
+  intro g hg o0 h0 o ho
+  simp only [distCfg, List.mem_cons, List.not_mem_nil, or_false] at hg
+  rcases hg with rfl | rfl <;> simp_all
+
+theorem twoCfg_homogeneous : Homogeneous twoCfg := by
+  intro g hg o0 h0 o ho
+  simp only [twoCfg, List.mem_cons, List.not_mem_nil, or_false] at hg
+  subst hg
+  simp only [List.head?_cons, Option.some.injEq] at h0
+  subst h0
+  simp only [List.mem_cons, List.not_mem_nil, or_false] at ho
+  rcases ho with rfl | rfl <;> rfl
+
 theorem specCfg_homogeneous : Homogeneous specCfg := by
   intro g hg o0 h0 o ho
   simp only [specCfg, List.mem_cons, List.not_mem_nil, or_false] at hg
